@@ -140,6 +140,40 @@ def rto_after_reassignment(c, iface, param, m=2, n=2):
     c.eq('after_reassigning_mean_and_noise:normal_equations_are_the_stationarity_of_the_targets_own_logd', s3.M(np.asarray(s3.b_tild) - np.asarray(s3.M(x, 1)), 2), g, tol=1e-4)
 
 
+def rto_documented_posterior(c, iface, param, side, m=4, n=3):
+    """bounded stand-in (native): Gaussians given by DENSE matrices of size 3-4 on both sides of the sparse-storage switch; the
+    sampler's normal equations are those of the posterior DOCUMENTED by the matrices the user passed (not merely of the target
+    object's own log-density, which is built from the same internal square roots)"""
+    from cuqi import config
+    old = config.MIN_DIM_SPARSE; config.MIN_DIM_SPARSE = 0 if side == 'above' else 10 ** 6
+    try:
+        A = c.mat('A', m, n); y = c.vec('y', m); mu = c.vec('mu', n)
+        Gn = c.lower('gn', m); Gp = c.lower('gp', n)
+        Pn = np.asarray(Gn @ Gn.T + 0.2 * np.eye(m), dtype=float); Pp = np.asarray(Gp @ Gp.T + 0.2 * np.eye(n), dtype=float)   # precisions
+        def arg(P):
+            if param == 'prec': return P
+            if param == 'cov': return np.linalg.inv(P)
+            if param == 'sqrtprec': return np.linalg.cholesky(P).T          # R with R^T R = P
+            if param == 'sqrtcov':
+                import scipy.linalg
+                return np.real(scipy.linalg.sqrtm(np.linalg.inv(P)))          # the SYMMETRIC root (the convention for non-symmetric roots is a recorded C04 finding)
+        prior = Gaussian(mu, **{param: arg(Pp)}); prior.name = 'x'
+        dd = Gaussian(LinearModel(A), **{param: arg(Pn)}); dd.name = 'y'
+        target = Posterior(dd.to_likelihood(y), prior)
+        xcur = c.vec('xcur', n)
+        if iface == 'exp':
+            from cuqi.experimental.mcmc import LinearRTO
+            s = LinearRTO(target, initial_point=xcur); s.initialize()
+        else:
+            from cuqi.sampler import LinearRTO
+            s = LinearRTO(target, x0=xcur)
+        x = c.vec('x', n)
+        spec = A.T @ (Pn @ (y - A @ x)) - Pp @ (x - mu)
+        c.eq('normal_equations_are_those_of_the_documented_posterior', s.M(np.asarray(s.b_tild) - np.asarray(s.M(x, 1)), 2), spec, tol=1e-7)
+    finally:
+        config.MIN_DIM_SPARSE = old
+
+
 def five_tuple(c, m=2, n=2):
     """legacy 5-tuple input form (data, model, L_sqrtprec, P_mean, P_sqrtprec)"""
     from cuqi.sampler import LinearRTO
@@ -224,5 +258,10 @@ def jobs(tier):
         for param in ('cov', 'prec', 'sqrtcov', 'sqrtprec'):
             J.append(Job(f'{tag}.LinearRTO:history:new_sampler_after_reassigning_prior_{param}', lambda c, i=iface, p=param: rto_after_reassignment(c, i, p), 'Pbox',
                          ['cuqi.distribution._gaussian:Gaussian.sqrtprecTimesMean', 'cuqi.distribution._gaussian:Gaussian.sqrtprec'], extra=_extra, rtol=1e-4))
+    for iface, tag in (('exp', 'experimental'), ('leg', 'legacy')):
+        for param in ('cov', 'prec', 'sqrtcov', 'sqrtprec'):
+            for side in ('below', 'above'):
+                J.append(Job(f'{tag}.LinearRTO:documented_posterior:dense_{param}:sparse_switch={side}', lambda c, i=iface, p=param, sd=side: rto_documented_posterior(c, i, p, sd), 'B',
+                             ['cuqi.distribution._gaussian:get_sqrtprec_from_prec', 'cuqi.distribution._gaussian:get_sqrtprec_from_cov'], nnum=6 if q else 40))
     J.append(Job('legacy.LinearRTO:five_tuple_form', five_tuple, 'Pbox', ['cuqi.sampler._rto:LinearRTO.__init__'], extra=_extra, rtol=1e-4))
     return J
